@@ -68,8 +68,6 @@ class ExprMixin:
             raise Unsupported('%s is not list-like' % t)
         n = z3.Select(st.h(self.eng.k_len()), v.z)
         arr = z3.Select(st.h(self.eng.k_elem(et)), v.z)
-        if et.reflike:
-            return SV(T.Seq(et), T.Seq(et).mk(n, arr))
         return mk_seq(et, n, arr)
 
     def elem_type(self, v):
@@ -96,9 +94,9 @@ class ExprMixin:
         if z3.is_false(cond):
             return
         e = st.copy()
-        e.assume(cond)
+        e.assume(cond, True)
         self.exits.append((e, exc, where))
-        st.assume(z3.Not(cond))
+        st.assume(z3.Not(cond), True)
 
     def nonnull(self, v, st, what='attribute'):
         if v.t.reflike and v.t.nullable:
@@ -214,7 +212,7 @@ class ExprMixin:
         return SV(tt, tt.mk([v.z for v in vs]), aux=vs)
 
     def tuple_items(self, v):
-        if v.aux is not None:
+        if isinstance(v.aux, list):
             return v.aux
         return [SV(t, v.t.get(v.z, i)) for i, t in enumerate(v.t.ts)]
 
@@ -253,7 +251,7 @@ class ExprMixin:
             return ite(go, rest, first)
         # code mode: evaluate the rest on a branch state (it may raise / have effects)
         br = st.copy()
-        br.assume(go)
+        br.assume(go, True)
         n_exits = len(self.exits)
         rest = self._boolop(values[1:], is_and, br)
         changed = any(not (br.heap.get(k) is st.heap.get(k)) for k in br.heap) or len(br.heap) != len(st.heap)
@@ -284,8 +282,8 @@ class ExprMixin:
             b = self.ev(n.orelse, st)
             return ite(c, a, b)
         sa, sb = st.copy(), st.copy()
-        sa.assume(c)
-        sb.assume(z3.Not(c))
+        sa.assume(c, True)
+        sb.assume(z3.Not(c), True)
         a = self.ev(n.body, sa)
         b = self.ev(n.orelse, sb)
         for e in sa.pc[len(st.pc) + 1:]:
@@ -546,6 +544,11 @@ class ExprMixin:
 
     # ------------------------------------------------------------------ subscripts
     def norm_index(self, i, n):
+        if z3.is_int_value(i):
+            return i + n if i.as_long() < 0 else i
+        if self.spec:
+            # spec expressions: only literal negative indices count from the end
+            return i
         return z3.If(i < 0, i + n, i)
 
     def ev_Subscript(self, n, st):
@@ -734,7 +737,11 @@ class ExprMixin:
     def quantify(self, n, st, universal):
         """all(...)/any(...) over a generator expression."""
         if len(n.generators) != 1:
-            raise Unsupported('nested generator')
+            inner = ast.GeneratorExp(elt=n.elt, generators=n.generators[1:])
+            call = ast.Call(func=ast.Name(id='all' if universal else 'any', ctx=ast.Load()), args=[inner], keywords=[])
+            outer = ast.GeneratorExp(elt=call, generators=n.generators[:1])
+            ast.fix_missing_locations(ast.Expression(body=outer))
+            return self.quantify(outer, st, universal)
         g = n.generators[0]
         it = g.iter
         guards = []
